@@ -230,7 +230,7 @@ fn part_builtins(ctx: &Ctx, sink: &mut Sink, j: &mut Journal) {
     let names = bind_pool(&sess, &pool);
     let n = pool.len();
     let all = BuiltInFunction::all();
-    let sampled = ctx.budget(1500, 30000);
+    let sampled = ctx.budget(3000, 40_000);
     let mut fresh_counter = 0u64;
     for (bi_idx, b) in all.iter().enumerate() {
         let fname = b.name();
@@ -599,7 +599,7 @@ fn part_sources(ctx: &Ctx, sink: &mut Sink, j: &mut Journal) {
         }
     }
     // grammar-generated (well- and ill-typed)
-    let ng = ctx.budget(12000, 400000);
+    let ng = ctx.budget(60_000, 1_000_000);
     for i in 0..ng {
         if !ctx.mine(i) {
             continue;
@@ -616,7 +616,7 @@ fn part_sources(ctx: &Ctx, sink: &mut Sink, j: &mut Journal) {
         run(sink, j, &src, if ill == 0 { "generated-well-typed" } else { "generated-ill-typed" });
     }
     // corpus-mutated
-    let nm = ctx.budget(12000, 400000);
+    let nm = ctx.budget(60_000, 1_000_000);
     for i in 0..nm {
         if !ctx.mine(i) || corp.is_empty() {
             continue;
@@ -630,7 +630,7 @@ fn part_sources(ctx: &Ctx, sink: &mut Sink, j: &mut Journal) {
         run(sink, j, &m, if heavy { "corpus-heavy" } else { "corpus-mutated" });
     }
     // raw random text over a punctuation-heavy alphabet
-    let nr = ctx.budget(12000, 400000);
+    let nr = ctx.budget(60_000, 1_000_000);
     for i in 0..nr {
         if !ctx.mine(i) {
             continue;
@@ -643,7 +643,7 @@ fn part_sources(ctx: &Ctx, sink: &mut Sink, j: &mut Journal) {
 
 fn part_json(ctx: &Ctx, sink: &mut Sink, j: &mut Journal) {
     let corp = corpus();
-    let n = ctx.budget(6000, 200000);
+    let n = ctx.budget(30_000, 400_000);
     for i in 0..n {
         if !ctx.mine(i) {
             continue;
